@@ -69,6 +69,8 @@ where R: Zero + Send + Sync {
 
             (0 .. l - 1).into_par_iter().for_each(|i|
                 (i + 1 .. l).into_par_iter().for_each(|j| {
+                    #[cfg(yui_verif)]
+                    crate::verif::emit(|| crate::verif::Event::PairVisit { i, j, joined: u.lock().unwrap().is_same(i, j) });
                     if !u.lock().unwrap().is_same(i, j) && col_intersects(a, cols[i], cols[j]) { 
                         u.lock().unwrap().union(i, j)
                     }
